@@ -234,15 +234,18 @@ def main(tier, seed):
     rep = run.Report('C19', tier, seed, TECHNIQUE)
     depth = 3
     cap = 200 if tier == 'quick' else 3000
-    units = [(p, depth if tier == 'quick' else 4, seed, cap, ch, 4)
-             for p in plan(tier) for ch in range(4)]
+    units = []
+    for i, p in enumerate(plan(tier)):
+        d = depth if tier == 'quick' or i % 4 else 4
+        units += [(p, d, seed, cap, ch, 4) for ch in range(4)]
     units = run.shuffled(units, seed)
     for part in run.pmap(work, units):
         rep.merge(part, part.get('label'))
     rep.bounds = {
         'alphabet': '%d operations over keys a,b x versions default,2 x '
                     'timeouts DEFAULT/None/0/-1/1/2' % len(alphabet()),
-        'depth': 'quick 3, thorough 4; clock <= 2 ticks',
+        'depth': 'quick 3; thorough 3 for all and 4 for every fourth '
+                 'parameter set; clock <= 2 ticks',
         'params': plan(tier) if tier == 'quick' else '32 combinations of '
                   'TIMEOUT/KEY_PREFIX/VERSION/SHARDS',
     }
